@@ -14,6 +14,8 @@ components are renamed to the new sub-space argument).  This single identity giv
 the property: the blocks sum to the original integrand (bilinearity) and block (i, j) depends only on
 the i-th test and j-th trial sub-function.
 
+C22-blocks extract_blocks (the MixedFunctionSpace branch) interpreted from source with a recording splitter for every
+           pattern of non-empty blocks over 2 and 3 sub-spaces: exactly the non-empty blocks, at their positions.
 C22-parts  the MixedFunctionSpace path: an argument with part p is kept iff p equals the requested block
            index, else replaced by a Zero of the same shape.
 """
@@ -33,6 +35,89 @@ from .c08 import np_model
 from .c14 import subst_symbols
 
 CLS = "ufl.algorithms.formsplitter.FormSplitter"
+
+
+def check_extract_blocks(ctx, rep):
+    """C22-blocks: extract_blocks interpreted from source on forms over a MixedFunctionSpace whose splitter is a
+    recording stub: for every pattern of non-empty blocks over 2 and 3 sub-spaces (all 2^4 + 2^9 of them; all
+    2^2 + 2^3 for linear forms) the matrix / tuple of blocks returned holds exactly the non-empty blocks at their
+    (row, column) positions and None elsewhere, and a requested single block (i, j) is that entry."""
+    from ..lift import Interp
+
+    prog = ctx.prog
+    fn = prog.get_function("ufl.algorithms.formsplitter", "extract_blocks")
+    n = 0
+    problems = {}
+    for nparts in (2, 3):
+        cells = list(itertools.product(range(nparts), repeat=2))
+        for arity in (2, 1):
+            universe = cells if arity == 2 else [(p,) for p in range(nparts)]
+            for bits in itertools.product((0, 1), repeat=len(universe)):
+                pattern = {c for c, b in zip(universe, bits) if b}
+                if not pattern:
+                    continue
+                rows = {c[0] for c in pattern}
+                cols = {c[1] for c in pattern} if arity == 2 else set()
+                # the splitter needs the highest part index to occur (num_parts = max(parts) + 1)
+                if max(rows | cols) != nparts - 1:
+                    continue
+
+                def arg(number, part):
+                    a = Obj("Argument", number=lambda: number, part=lambda: part)
+                    a.attrs["__class__"] = None
+                    return a
+
+                arguments = tuple(arg(0, p) for p in sorted(rows)) + tuple(arg(1, p) for p in sorted(cols))
+
+                def block(key):
+                    b = Obj(f"block{key}", key=key)
+                    b.attrs["__class__"] = None
+                    b.attrs["empty"] = lambda: key not in pattern
+                    b.attrs["arguments"] = lambda: tuple(range(len(key)))
+                    return b
+
+                made = {}
+
+                def split(form, pi, pj=None):
+                    key = (pi,) if pj is None else (pi, pj)
+                    made[key] = block(key)
+                    return made[key]
+
+                splitter = Obj("FormSplitter", split=split)
+                splitter.attrs["__class__"] = None
+                ip = Interp(prog)
+                ip.overrides["FormSplitter"] = lambda replace_argument=True: splitter
+                form = Obj("form", arguments=lambda: arguments)
+                form.attrs["__class__"] = None
+                try:
+                    out = ip.call_function(fn, [form], {})
+                except LiftRaise as e:
+                    problems.setdefault(f"raises {e.what[:80]}", (nparts, arity, sorted(pattern)))
+                    continue
+                n += 1
+                for key in universe:
+                    got = out[key[0]] if arity == 1 else out[key[0]][key[1]]
+                    if key in pattern:
+                        if not (isinstance(got, Obj) and got.attrs.get("key") == key):
+                            problems.setdefault(f"the non-empty block {key} is returned as {('block ' + str(got.attrs.get('key'))) if isinstance(got, Obj) else got!r}", (nparts, arity, sorted(pattern)))
+                    elif got is not None:
+                        problems.setdefault(f"the empty block {key} is returned as {got!r} instead of None", (nparts, arity, sorted(pattern)))
+                # single-block requests
+                for key in sorted(pattern)[:2]:
+                    try:
+                        one = ip.call_function(fn, [form] + list(key), {})
+                    except LiftRaise as e:
+                        problems.setdefault(f"requesting block {key} raises {e.what[:60]}", (nparts, arity, sorted(pattern)))
+                        continue
+                    if not (isinstance(one, Obj) and one.attrs.get("key") == key):
+                        problems.setdefault(f"requesting the non-empty block {key} returns {one!r}", (nparts, arity, sorted(pattern)))
+    for msg, (nparts, arity, pat) in problems.items():
+        rep.violation("C22-blocks", fn, msg, f"extract_blocks on a form over {nparts} sub-spaces (arity {arity}) whose non-empty blocks are {pat}: {msg}")
+    if not problems:
+        rep.ok("C22-blocks", fn, f"extract_blocks returns exactly the non-empty blocks at their positions for all {n} block patterns over 2 and 3 sub-spaces")
+    if n < 300 and not problems:
+        raise AnalysisError(f"only {n} block patterns interpreted")
+    return n
 
 
 def run(ctx) -> Report:
@@ -211,6 +296,9 @@ def run(ctx) -> Report:
         "physical_value_shape of each sub-element is lifted from pullback.py and cross-checked with the modelled layout."
     )
     rep.assumptions = ["bilinear / linear integrands (so that the projected integrands sum to the original)", "extract_blocks' bookkeeping over Forms (empty blocks, arities) is not lifted"]
+    # ---- extract_blocks on MixedFunctionSpace forms: every block pattern ----------------------------------------
+    n_pat = check_extract_blocks(ctx, rep)
+    rep.counts["block_patterns"] = n_pat
     from ..memokey import memo_rule
 
     memo_rule(ctx, rep, "C22-key", ['ufl.algorithms.formsplitter'])
